@@ -187,6 +187,9 @@ func (p *instancePool) warmUpGun(ctx context.Context) error {
 }
 
 type poolAsyncRunHandle struct {
+	// Context of the instancePool.Run call: done when Run has returned or has been canceled,
+	// that is, when nobody is going to receive an awaited error anymore.
+	poolCtx             context.Context
 	runCtx              context.Context
 	runCancel           context.CancelFunc
 	instanceStartCtx    context.Context
@@ -199,9 +202,9 @@ type poolAsyncRunHandle struct {
 	runRes chan instanceRunResult
 }
 
-func (p *instancePool) runAsync(runCtx context.Context) (*poolAsyncRunHandle, error) {
+func (p *instancePool) runAsync(poolCtx context.Context) (*poolAsyncRunHandle, error) {
 	// Canceled in case all instances finish, fail or run runCancel.
-	runCtx, runCancel := context.WithCancel(runCtx)
+	runCtx, runCancel := context.WithCancel(poolCtx)
 	_ = runCancel
 	// Canceled also on out of ammo, and finish of shared RPS schedule.
 	instanceStartCtx, instanceStartCancel := context.WithCancel(runCtx)
@@ -231,6 +234,7 @@ func (p *instancePool) runAsync(runCtx context.Context) (*poolAsyncRunHandle, er
 		startRes <- startResult{started, err}
 	}()
 	return &poolAsyncRunHandle{
+		poolCtx:             poolCtx,
 		runCtx:              runCtx,
 		runCancel:           runCancel,
 		instanceStartCtx:    instanceStartCtx,
@@ -334,7 +338,9 @@ func (ah *runAwaitHandle) onErrAwaited(err error) {
 	select {
 	case ah.awaitErr <- err:
 		verifAwait(ah, "ErrForwarded", 0, err)
-	case <-ah.runCtx.Done():
+	// Not runCtx: it is canceled by the pool itself when all instances have finished, while
+	// Run is still waiting for the provider and aggregator results, which must not be lost.
+	case <-ah.poolCtx.Done():
 		verifAwait(ah, "ErrSuppressed", 0, err)
 		if err != ah.runCtx.Err() {
 			ah.log.Debug("Error suppressed after run cancel", zap.Error(err))
